@@ -189,6 +189,14 @@ def graph_level(sp, col, shard):
     b, model = case.b, case.model
     where0 = {'type': meta.get('type'), 'placement': meta.get('placement')}
     if b.dsg is None:
+        b0 = B.build(sp, constrain=False)
+        gone = [k for c in sp['constraints'] for k in c['choices']
+                if b0.dsg is None or (k in b0.sel and b0.sel[k] not in b0.dsg.graph.nodes)]
+        if gone:
+            # the description constrains a choice that initialisation has already resolved (single option left):
+            # the construction API rejects it; nothing to judge
+            col.count('skipped_constraint_on_resolved_choice')
+            return
         if case.archs:
             info = D.exc_info(b.error)
             col.violation('constrained_graph_build_error', sp, {'exc': info, 'n_ref': len(case.archs)}, flags,
